@@ -114,17 +114,6 @@ func (o *orbitDBEventLogStore) query(options *iface.StreamOptions) ([]ipfslog.En
 		return nil, fmt.Errorf("unable to cast index to entries")
 	}
 
-	// an entry whose payload is not an operation (a writer is not bound to what
-	// this store writes) is not part of the listing: windows are taken over what
-	// can be listed, instead of ending, silently, at the first such entry
-	listed := make([]ipfslog.Entry, 0, len(events))
-	for _, e := range events {
-		if _, err := operation.ParseOperation(e); err == nil {
-			listed = append(listed, e)
-		}
-	}
-	events = listed
-
 	amount := 1
 	if options.Amount != nil {
 		if *options.Amount == 0 {
@@ -198,6 +187,14 @@ func (o *orbitDBEventLogStore) read(ops []ipfslog.Entry, hash cid.Cid, amount in
 
 		if amount == 0 {
 			break
+		}
+
+		// an entry whose payload is not an operation (a writer is not bound to
+		// what this store writes) is neither listed nor counted - instead of
+		// ending every listing, silently, at the first such entry. The bound
+		// itself is looked up among ALL the entries: it may be one of those
+		if _, err := operation.ParseOperation(e); err != nil {
+			continue
 		}
 
 		result = append(result, e)
